@@ -416,4 +416,292 @@ theorem denOps_compile (root : Node) (strict : Bool) (p : Spec.Path) (hwf : p.st
   | true => simp [denOps]
   | false => simp
 
+/-! ### `_canonicalize` on the Canon domain -/
+
+/-- a `.` anywhere in an op list is a no-op -/
+theorem denOps_here (root : Node) (strict : Bool) : ∀ (A B : List Op) (el : Pos),
+    denOps root strict (A ++ .here :: B) el = denOps root strict (A ++ B) el
+  | [], B, el => by simp [denOps]
+  | .top :: A, B, el => by simp only [List.cons_append, denOps]; exact denOps_here root strict A B _
+  | .up :: A, B, el => by simp only [List.cons_append, denOps]; exact denOps_here root strict A B _
+  | .here :: A, B, el => by simp only [List.cons_append, denOps]; exact denOps_here root strict A B _
+  | .name d :: A, B, el => by
+    simp only [List.cons_append, denOps]
+    cases indexAt root el d with
+    | some i => exact denOps_here root strict A B _
+    | none => rfl
+  | .slice a b c :: A, B, el => by
+    simp only [List.cons_append, denOps]
+    have : denOps root strict (A ++ .here :: B) = denOps root strict (A ++ B) :=
+      funext (denOps_here root strict A B)
+    rw [this]
+
+def _root_.Flatland.Path.Op.isHere : Op → Bool | .here => true | _ => false
+def _root_.Flatland.Path.Op.isUp : Op → Bool | .up => true | _ => false
+
+theorem denOps_filter_here (root : Node) (strict : Bool) : ∀ (B A : List Op) (el : Pos),
+    denOps root strict (A ++ B.filter (fun o => !o.isHere)) el = denOps root strict (A ++ B) el
+  | [], A, el => rfl
+  | .here :: B, A, el => by
+    have h1 : (!(Op.here).isHere) = false := rfl
+    rw [List.filter_cons]
+    simp only [h1, Bool.false_eq_true, if_false]
+    rw [denOps_here, denOps_filter_here root strict B A el]
+  | .top :: B, A, el => by
+    have h1 : (!(Op.top).isHere) = true := rfl
+    rw [List.filter_cons]
+    simp only [h1, if_true]
+    have h2 := denOps_filter_here root strict B (A ++ [.top]) el
+    simp only [List.append_assoc, List.singleton_append] at h2
+    exact h2
+  | .up :: B, A, el => by
+    have h1 : (!(Op.up).isHere) = true := rfl
+    rw [List.filter_cons]
+    simp only [h1, if_true]
+    have h2 := denOps_filter_here root strict B (A ++ [.up]) el
+    simp only [List.append_assoc, List.singleton_append] at h2
+    exact h2
+  | .name d :: B, A, el => by
+    have h1 : (!(Op.name d).isHere) = true := rfl
+    rw [List.filter_cons]
+    simp only [h1, if_true]
+    have h2 := denOps_filter_here root strict B (A ++ [.name d]) el
+    simp only [List.append_assoc, List.singleton_append] at h2
+    exact h2
+  | .slice a b c :: B, A, el => by
+    have h1 : (!(Op.slice a b c).isHere) = true := rfl
+    rw [List.filter_cons]
+    simp only [h1, if_true]
+    have h2 := denOps_filter_here root strict B (A ++ [.slice a b c]) el
+    simp only [List.append_assoc, List.singleton_append] at h2
+    exact h2
+
+/-- the loop of `_canonicalize` over an op list without `..`: drops every `.` (multi), keeps the rest -/
+theorem foldl_canon_rest : ∀ (R canon : List Op), R.all (fun o => !o.isUp) = true →
+    R.foldl (canonStep true) canon = (R.filter (fun o => !o.isHere)).reverse ++ canon
+  | [], canon, _ => rfl
+  | o :: R, canon, h => by
+    simp only [List.all_cons, Bool.and_eq_true] at h
+    simp only [List.foldl_cons]
+    rw [foldl_canon_rest R _ h.2]
+    cases o with
+    | here => simp [canonStep, Op.isHere]
+    | up => simp [Op.isUp] at h
+    | top => simp [canonStep, Op.isHere]
+    | name d => simp [canonStep, Op.isHere]
+    | slice a b c => simp [canonStep, Op.isHere]
+
+/-- accumulator shapes while only `/`, `..` and `.` have been seen -/
+def ZoneAcc (canon : List Op) : Prop := canon = [.top] ∨ canon.all Op.isUp = true
+
+/-- the loop over a run of `..` and `.`: the accumulator stays `[TOP]` or all-`..`, and means the same -/
+theorem foldl_canon_zone (root : Node) (strict : Bool) : ∀ (Z canon : List Op),
+    Z.all (fun o => o.isUp || o.isHere) = true → ZoneAcc canon →
+    ZoneAcc (Z.foldl (canonStep true) canon) ∧
+    ∀ (S : List Op) (el : Pos),
+      denOps root strict ((Z.foldl (canonStep true) canon).reverse ++ S) el
+        = denOps root strict (canon.reverse ++ (Z ++ S)) el
+  | [], canon, _, hc => ⟨hc, fun S el => rfl⟩
+  | o :: Z, canon, hz, hc => by
+    simp only [List.all_cons, Bool.and_eq_true] at hz
+    simp only [List.foldl_cons]
+    cases o with
+    | top => simp [Op.isUp, Op.isHere] at hz
+    | name d => simp [Op.isUp, Op.isHere] at hz
+    | slice a b c => simp [Op.isUp, Op.isHere] at hz
+    | here =>
+      have hstep : canonStep true canon .here = canon := by simp [canonStep]
+      rw [hstep]
+      obtain ⟨h1, h2⟩ := foldl_canon_zone root strict Z canon hz.2 hc
+      refine ⟨h1, fun S el => ?_⟩
+      rw [h2 S el, List.cons_append, denOps_here]
+    | up =>
+      rcases hc with hc | hc
+      · -- after `/`, `..` stays at the root
+        subst hc
+        have hstep : canonStep true [.top] .up = [.top] := by simp [canonStep]
+        rw [hstep]
+        obtain ⟨h1, h2⟩ := foldl_canon_zone root strict Z [.top] hz.2 (Or.inl rfl)
+        refine ⟨h1, fun S el => ?_⟩
+        rw [h2 S el]
+        simp [denOps]
+      · have hstep : canonStep true canon .up = .up :: canon := by
+          cases canon with
+          | nil => simp [canonStep]
+          | cons c cs =>
+            simp only [List.all_cons, Bool.and_eq_true] at hc
+            cases c <;> simp [Op.isUp] at hc
+            simp [canonStep]
+        rw [hstep]
+        have hc' : ZoneAcc (.up :: canon) := Or.inr (by simp [Op.isUp, hc])
+        obtain ⟨h1, h2⟩ := foldl_canon_zone root strict Z (.up :: canon) hz.2 hc'
+        refine ⟨h1, fun S el => ?_⟩
+        rw [h2 S el]
+        simp
+
+/-- split of a `Canon` step list: a run of `..`/`.` and a rest without `..` -/
+theorem canon_split : ∀ steps : List Step, canonFrom false steps = true →
+    ∃ Z R, steps = Z ++ R ∧ Z.all (fun s => s.isUp || s.isHere) = true ∧ R.all (fun s => !s.isUp) = true
+  | [], _ => ⟨[], [], rfl, rfl, rfl⟩
+  | .here :: r, h => by
+    obtain ⟨Z, R, h1, h2, h3⟩ := canon_split r (by simpa [canonFrom] using h)
+    exact ⟨.here :: Z, R, by simp [h1], by
+      simp only [List.all_cons, Bool.and_eq_true]; exact ⟨by rfl, h2⟩, h3⟩
+  | .up :: r, h => by
+    obtain ⟨Z, R, h1, h2, h3⟩ := canon_split r (by simpa [canonFrom] using h)
+    exact ⟨.up :: Z, R, by simp [h1], by
+      simp only [List.all_cons, Bool.and_eq_true]; exact ⟨by rfl, h2⟩, h3⟩
+  | .name s :: r, h => by
+    refine ⟨[], .name s :: r, rfl, rfl, ?_⟩
+    simp only [canonFrom] at h
+    simp only [List.all_cons, Step.isUp, Bool.not_false, Bool.true_and]
+    exact noUp_of_canonTrue r h
+  | .negidx k :: r, h => by
+    refine ⟨[], .negidx k :: r, rfl, rfl, ?_⟩
+    simp only [canonFrom] at h
+    simp only [List.all_cons, Step.isUp, Bool.not_false, Bool.true_and]
+    exact noUp_of_canonTrue r h
+  | .slice a b c :: r, h => by
+    refine ⟨[], .slice a b c :: r, rfl, rfl, ?_⟩
+    simp only [canonFrom] at h
+    simp only [List.all_cons, Step.isUp, Bool.not_false, Bool.true_and]
+    exact noUp_of_canonTrue r h
+where
+  noUp_of_canonTrue : ∀ r : List Step, canonFrom true r = true → r.all (fun s => !s.isUp) = true
+    | [], _ => rfl
+    | .here :: r, h => by simpa [Step.isUp] using noUp_of_canonTrue r (by simpa [canonFrom] using h)
+    | .up :: r, h => by simp [canonFrom] at h
+    | .name _ :: r, h => by simpa [Step.isUp] using noUp_of_canonTrue r (by simpa [canonFrom] using h)
+    | .negidx _ :: r, h => by simpa [Step.isUp] using noUp_of_canonTrue r (by simpa [canonFrom] using h)
+    | .slice _ _ _ :: r, h => by simpa [Step.isUp] using noUp_of_canonTrue r (by simpa [canonFrom] using h)
+
+theorem compileStep_isUp (s : Step) : (compileStep s).isUp = s.isUp := by
+  cases s with
+  | up => rfl
+  | here => rfl
+  | name _ => rfl
+  | negidx n => simp only [compileStep]; split <;> rfl
+  | slice a b c =>
+    match a, b, c with
+    | none, none, none => rfl
+    | none, none, some none => rfl
+    | none, none, some (some v) => rfl
+    | some _, none, none => rfl
+    | none, some _, none => rfl
+    | some _, some _, none => rfl
+    | some _, none, some _ => rfl
+    | none, some _, some _ => rfl
+    | some _, some _, some _ => rfl
+
+theorem compileStep_isHere (s : Step) : (compileStep s).isHere = s.isHere := by
+  cases s with
+  | up => rfl
+  | here => rfl
+  | name _ => rfl
+  | negidx n => simp only [compileStep]; split <;> rfl
+  | slice a b c =>
+    match a, b, c with
+    | none, none, none => rfl
+    | none, none, some none => rfl
+    | none, none, some (some v) => rfl
+    | some _, none, none => rfl
+    | none, some _, none => rfl
+    | some _, some _, none => rfl
+    | some _, none, some _ => rfl
+    | none, some _, some _ => rfl
+    | some _, some _, some _ => rfl
+
+/-- a single token is returned unchanged -/
+theorem canonicalize_short (ops : List Op) (h : ops.length ≤ 1) : canonicalize ops = ops := by
+  match ops, h with
+  | [], _ => rfl
+  | [o], _ =>
+    unfold canonicalize
+    cases o <;> simp [canonStep]
+
+/-- **`_canonicalize` preserves the denotation on the Canon domain** (every `..` before every
+    name/index/slice step) -/
+theorem canonicalize_sound (root : Node) (strict : Bool) (p : Spec.Path) (hc : Canon p = true) (el : Pos) :
+    denOps root strict (canonicalize (compile p)) el = denOps root strict (compile p) el := by
+  by_cases hlen : (compile p).length ≤ 1
+  · rw [canonicalize_short _ hlen]
+  · have hmulti : decide ((compile p).length > 1) = true := by simp; omega
+    obtain ⟨Z, R, hsplit, hZ, hR⟩ := canon_split p.steps hc
+    have hZ' : (Z.map compileStep).all (fun o => o.isUp || o.isHere) = true := by
+      rw [List.all_map]
+      simpa [Function.comp_def, compileStep_isUp, compileStep_isHere] using hZ
+    have hR' : (R.map compileStep).all (fun o => !o.isUp) = true := by
+      rw [List.all_map]
+      simpa [Function.comp_def, compileStep_isUp] using hR
+    unfold canonicalize
+    rw [hmulti]
+    unfold compile
+    rw [hsplit, List.map_append, List.foldl_append, List.foldl_append]
+    -- the accumulator after the optional TOP
+    have hacc : ZoneAcc ((if p.top = true then [Op.top] else []).foldl (canonStep true) []) := by
+      cases p.top with
+      | true => left; simp [canonStep]
+      | false => right; rfl
+    obtain ⟨_, hz2⟩ := foldl_canon_zone root strict (Z.map compileStep) _ hZ' hacc
+    rw [foldl_canon_rest _ _ hR', List.reverse_append, List.reverse_reverse]
+    rw [hz2]
+    have hpre : ((if p.top = true then [Op.top] else []).foldl (canonStep true) []).reverse
+        = (if p.top = true then [Op.top] else []) := by
+      cases p.top <;> simp [canonStep]
+    rw [hpre]
+    have := denOps_filter_here root strict (R.map compileStep)
+      ((if p.top = true then [Op.top] else []) ++ Z.map compileStep) el
+    simp only [List.append_assoc] at this
+    exact this
+
+/-- **evaluator ∘ canonicalize ∘ compile = denotation** on the Canon domain -/
+theorem eval_denotes (root : Node) (strict : Bool) (p : Spec.Path)
+    (hwf : p.steps.all Step.wf = true) (hc : Canon p = true) (el : Pos) :
+    evalOps root strict (canonicalize (compile p)) el = denote p root el strict := by
+  have hz : NoZero (compile p) = true := by
+    unfold compile NoZero
+    rw [List.all_append]
+    have := compile_noZero p.steps hwf
+    unfold NoZero at this
+    rw [this]
+    cases p.top <;> rfl
+  rw [evalOps_denotes _ _ _ _ (canonicalize_noZero _ hz), canonicalize_sound _ _ _ hc, denOps_compile _ _ _ hwf]
+
+/-- the same without `_canonicalize` (paths without `.`/`..` are not canonicalised), no `Canon` needed -/
+theorem eval_denotes_raw (root : Node) (strict : Bool) (p : Spec.Path)
+    (hwf : p.steps.all Step.wf = true) (el : Pos) :
+    evalOps root strict (compile p) el = denote p root el strict := by
+  have hz : NoZero (compile p) = true := by
+    unfold compile NoZero
+    rw [List.all_append]
+    have := compile_noZero p.steps hwf
+    unfold NoZero at this
+    rw [this]
+    cases p.top <;> rfl
+  rw [evalOps_denotes _ _ _ _ hz, denOps_compile _ _ _ hwf]
+
+/-- non-vacuity: `../l[1:]/x` is Canon and well-formed -/
+example : Canon ⟨false, [.up, .name ['l'], .slice (some 1) none none, .name ['x']]⟩ = true ∧
+    ([Step.up, .name ['l'], .slice (some 1) none none, .name ['x']].all Step.wf) = true := by decide
+
+/-! ### the full statement and why it fails (KF-C14-a) -/
+
+/-- the property without the `Canon` restriction -/
+def C14_Full : Prop :=
+  ∀ (root : Node) (strict : Bool) (p : Spec.Path) (el : Pos), p.steps.all Step.wf = true →
+    evalOps root strict (canonicalize (compile p)) el = denote p root el strict
+
+/-- `nosuch/..`, strict, on a Dict without such a field: the documented reading raises
+    LookupError, the code (which cancels `nosuch/..` first) returns the start element -/
+theorem C14_full_fails : ¬ C14_Full := by
+  intro h
+  have := h (.mk .map [] [.mk .scalar ['a'] []]) true ⟨false, [.name ['n'], .up]⟩ [] (by decide)
+  rw [evalOps_denotes _ _ _ _ (by decide)] at this
+  have h1 : denOps (.mk .map [] [.mk .scalar ['a'] []]) true
+      (canonicalize (compile ⟨false, [.name ['n'], .up]⟩)) [] = .ok [[]] := by decide
+  have h2 : denote ⟨false, [.name ['n'], .up]⟩ (.mk .map [] [.mk .scalar ['a'] []]) [] true
+      = .error .lookup := by decide
+  rw [h1, h2] at this
+  cases this
+
 end Flatland.C14.Proofs
